@@ -43,22 +43,36 @@ func ruleC08_1(c *Ctx) {
 		c.examined(len(fn.Blocks))
 		tag := "eventloop." + spec.fn
 		conn := ssa.Value(fn.Params[1])
-		saves := p.callsIn(fn, rbWrite)
+		// the save may sit in a helper shared by both read paths (`c.saveLeftover()`): each call site is looked at
+		type save struct {
+			sv     ssa.CallInstruction
+			at     ssa.Instruction // in fn
+			okArgs bool
+			guards []Guard
+		}
+		var saves []save
+		p.virtualCalls(fn, []*ssa.Function{rbWrite}, func(sv ssa.CallInstruction) {
+			x := save{sv: sv, guards: guardsOf(sv)}
+			x.at = lift(sv.(ssa.Instruction), fn)
+			if x.at == nil {
+				x.at = sv.(ssa.Instruction)
+			}
+			// receiver &c.inboundBuffer, argument c.buffer, same connection
+			if fa, ok := sv.Common().Args[0].(*ssa.FieldAddr); ok && fieldVar(fa.X.Type(), fa.Field) == inb && strip(fa.X) == conn {
+				if base, ok := fieldLoad(sv.Common().Args[1], bufF); ok && strip(base) == conn {
+					x.okArgs = true
+				}
+			}
+			saves = append(saves, x)
+		})
 		if len(saves) != 1 {
 			c.bad(tag+": leftover saved once", p.pos(fn.Pos()), fmt.Sprintf("expected one inboundBuffer.Write(c.buffer), found %d: unconsumed bytes of a request cut by TCP are lost or stored twice", len(saves)))
 			continue
 		}
-		sv := saves[0]
-		// receiver &c.inboundBuffer, argument c.buffer, same connection
-		okArgs := false
-		if fa, ok := sv.Common().Args[0].(*ssa.FieldAddr); ok && fieldVar(fa.X.Type(), fa.Field) == inb && strip(fa.X) == conn {
-			if base, ok := fieldLoad(sv.Common().Args[1], bufF); ok && strip(base) == conn {
-				okArgs = true
-			}
-		}
-		c.check(okArgs, tag+": leftover is c.buffer into c.inboundBuffer", c.at(sv), "c.inboundBuffer.Write(c.buffer)", "what is saved for the next round is not the connection's own unconsumed bytes")
+		sv, at := saves[0].sv, saves[0].at
+		c.check(saves[0].okArgs, tag+": leftover is c.buffer into c.inboundBuffer", c.at(sv), "c.inboundBuffer.Write(c.buffer)", "what is saved for the next round is not the connection's own unconsumed bytes")
 		// only on the incomplete edge: guarded by err != nil of the reader's result, and not the invalid edge
-		gs := guardsOf(sv)
+		gs := saves[0].guards
 		errNotNil := guardHas(gs, func(g Guard) bool {
 			x, op, y, ok := cmpGuard(g)
 			if !ok || op != token.NEQ || !isNilConst(y) {
@@ -74,13 +88,13 @@ func ruleC08_1(c *Ctx) {
 		c.check(errNotNil, tag+": leftover saved only when the decoder wants more bytes", c.at(sv), "dominated by err != nil of conn."+spec.rd+"()",
 			"the unconsumed bytes are saved on a path that is not the decoder's 'incomplete' exit: bytes already handed to a request are parsed again (duplicated request) ", withGuards(gs))
 		// once: not inside the loop body that iterates
-		if l := innermostLoop(loopsOf(fn), sv.Block()); l != nil {
+		if l := innermostLoop(loopsOf(fn), at.Block()); l != nil {
 			c.bad(tag+": leftover saved once per read", c.at(sv), "the save is inside the decode loop")
 		}
 		// after the save the function returns without decoding again
-		exits := pathFrom(sv.(ssa.Instruction), func(in ssa.Instruction) bool { return false })
+		exits := pathFrom(at, func(in ssa.Instruction) bool { return false })
 		again := false
-		pathFrom(sv.(ssa.Instruction), func(in ssa.Instruction) bool {
+		pathFrom(at, func(in ssa.Instruction) bool {
 			if call, ok := in.(*ssa.Call); ok {
 				if _, is := p.isCallTo(call, rd); is {
 					again = true
